@@ -1687,3 +1687,42 @@ func ruleLinkRoots(c *Ctx) []Obligation {
 	}
 	return obs
 }
+
+// ---------------------------------------------------------------- PATTERN.MODIFIER (hunt/h5/C09/finding1; recorded finding)
+
+func init() {
+	register(&Rule{Name: "PATTERN.MODIFIER", Props: []string{"C09"}, Floor: 1,
+		Doc: "the modifier of a pattern (invert-match, RFC 7950 9.4.6) takes part in the resolved type: the type resolver reads Pattern.Modifier",
+		Run: rulePatternModifier})
+}
+
+func rulePatternModifier(c *Ctx) []Obligation {
+	const R = "PATTERN.MODIFIER"
+	con := "yang.(*Type).resolve: the modifier of a pattern is read"
+	res := c.Fn("yang.(*Type).resolve")
+	pt := c.Named("yang", "Pattern")
+	if res == nil || pt == nil {
+		return []Obligation{undecided(R, con, "-", "(*Type).resolve / Pattern not found")}
+	}
+	f := FieldVar(pt, "Modifier")
+	if f == nil {
+		return []Obligation{ok(R, con, c.Pos(res.Pos()), "Pattern has no Modifier field: the statement is refused by the AST builder")}
+	}
+	read := false
+	for _, fn := range c.Funcs {
+		if !c.isRepoFn(fn) {
+			continue
+		}
+		eachInstr(fn, func(in ssa.Instruction) {
+			if v, isV := in.(ssa.Value); isV {
+				if _, lf, _ := loadedField(v); lf == f {
+					read = true
+				}
+			}
+		})
+	}
+	if read {
+		return []Obligation{ok(R, con, c.Pos(res.Pos()), "Pattern.Modifier is read")}
+	}
+	return []Obligation{bad(R, con, c.Pos(f.Pos()), "`pattern \"[a-z]+\" { modifier invert-match; }` is parsed and the modifier is read nowhere: the resolved type carries the pattern with its sense flipped, a type that adds the inverted pattern to a typedef that has the plain one gets nothing (the texts are equal), and a union of the two keeps one member")}
+}
